@@ -1,8 +1,8 @@
 package props
 
 import (
-	"sort"
 	"fmt"
+	"sort"
 	"testing"
 	"testing/synctest"
 
